@@ -213,6 +213,9 @@ func (p *stubObject) OnTerminate() {
 	p.signal.OnTerminate()
 }
 func (p *stubObject) Receive(msg *net.Message, from Channel) error {
+	if msg.Header.Type != net.Call && msg.Header.Type != net.Post {
+		return fmt.Errorf("unexpected message type: %d", msg.Header.Type)
+	}
 	from = p.impl.Tracer(msg, from)
 	switch msg.Header.Action {
 	case 0:
